@@ -51,8 +51,8 @@ Proof.
     intros a b Ha Hb. apply Hsym; eapply Permutation_in; try (symmetry; exact Hp1); assumption.
 Qed.
 
-Lemma fsum_cons ufld k u us : fsum ufld k (u :: us) == fsum ufld k [u] + fsum ufld k us.
-Proof. change (u :: us) with ([u] ++ us). apply fsum_app. Qed.
+Lemma fsum_two ufld k u v : fsum ufld k [u; v] == fsum ufld k [u] + fsum ufld k [v].
+Proof. change [u; v] with ([u] ++ [v]). apply fsum_app. Qed.
 
 (* ---------------------------------------------------------------- one pair *)
 Section AsymPair.
@@ -114,7 +114,7 @@ Proof.
   unfold asym_elem. cbv zeta.
   destruct (p_coinc pc); rewrite fsum_app;
     destruct (t1_of iv' jv'); destruct (t2_of iv' jv');
-    rewrite ?(fsum_cons ufld _ (au iv' jv' (p_orient pc) (ww / 2) _)), ?Z, ?fsum_nil by assumption; ring.
+    rewrite ?fsum_two, ?Z, ?fsum_nil by assumption; ring.
 Qed.
 
 Lemma fsum_elem_at iv jv o :
@@ -128,10 +128,11 @@ Proof.
   { intros o' w v Ho'. rewrite (fsum_au iv jv (p_ipas pc) o iv jv o' w v Hj Hj Hipas Ho Ho'). rewrite !Nat.eqb_refl. reflexivity. }
   unfold asym_elem, asym_term. cbv zeta.
   assert (Hcase : (p_orient pc = o /\ flip (p_orient pc) <> o) \/ (p_orient pc <> o /\ flip (p_orient pc) = o)).
-  { destruct (p_orient pc), o; cbn; try congruence; auto. }
+  { generalize Horient Ho. destruct (p_orient pc), o; cbn; intros H1 H2; try congruence;
+      ((left; split; [reflexivity|discriminate]) || (right; split; [discriminate|reflexivity])). }
   destruct (p_coinc pc); rewrite fsum_app;
     destruct (t1_of iv jv); destruct (t2_of iv jv);
-    rewrite ?(fsum_cons ufld _ (au iv jv (p_orient pc) (ww / 2) _)), ?Z, ?fsum_nil by assumption;
+    rewrite ?fsum_two, ?Z, ?fsum_nil by assumption;
     destruct Hcase as [[E1 E2]|[E1 E2]];
     (destruct (orient_eqb_spec o (p_orient pc)); try congruence);
     (destruct (orient_eqb_spec o (flip (p_orient pc))); try congruence);
@@ -149,9 +150,9 @@ Proof.
   rewrite fsum_flat_map. rewrite (sumQ_single _ nvar iv Hi).
   - rewrite eval_asym_elems, fsum_flat_map. rewrite (sumQ_single _ (S iv) jv ltac:(lia)).
     + apply fsum_elem_at; assumption.
-    + intros jv' Hjv' Hne. apply fsum_elem_other; try assumption; try lia. left. congruence.
+    + intros jv' Hjv' Hne. apply fsum_elem_other; [assumption|lia|assumption|assumption|left; congruence].
   - intros iv' Hiv' Hne. rewrite eval_asym_elems, fsum_flat_map. apply sumQ_zero. intros jv' Hin. apply in_seq in Hin.
-    apply fsum_elem_other; try assumption; try lia. left. congruence.
+    apply fsum_elem_other; [assumption|lia|assumption|assumption|left; congruence].
 Qed.
 
 Lemma fsum_eval_asym_other nvar iv jv k o :
@@ -161,7 +162,7 @@ Proof.
   intros Hj Hk Ho Hne.
   rewrite fsum_flat_map. apply sumQ_zero. intros iv' _.
   rewrite eval_asym_elems, fsum_flat_map. apply sumQ_zero. intros jv' Hin. apply in_seq in Hin.
-  apply fsum_elem_other; try assumption; try lia. right. exact Hne.
+  apply fsum_elem_other; [assumption|lia|assumption|assumption|right; exact Hne].
 Qed.
 End AsymPair.
 
@@ -345,7 +346,7 @@ Proof.
   rewrite Ec.
   destruct (coincident a b) eqn:Eco.
   - unfold padd, wterm, prod1.
-    destruct (zval a iv); destruct (zval b jv); destruct (zval b iv); destruct (zval a jv); cbn [fst snd]; split; ring.
+    destruct (zval a iv); destruct (zval b jv); destruct (zval b iv); destruct (zval a jv); cbn [fst snd]; split; field.
   - destruct Hdir as [Hdir|Hnz]; [discriminate|].
     assert (Hd2 : 0 < g_d2 (geo_pair d a b)) by (unfold coincident in Eco; apply qleb_false; exact Eco).
     assert (Sab : pair_side b a = flip (pair_side a b)).
@@ -356,7 +357,7 @@ Proof.
     assert (Fl : flip (flip (pair_side a b)) = pair_side a b) by (destruct (pair_side a b); reflexivity).
     rewrite Fl. unfold padd, wterm, prod1.
     destruct (orient_eqb (pair_side a b) o); destruct (orient_eqb (flip (pair_side a b)) o);
-      destruct (zval a iv); destruct (zval b jv); destruct (zval b iv); destruct (zval a jv); cbn [fst snd]; split; ring.
+      destruct (zval a iv); destruct (zval b jv); destruct (zval b iv); destruct (zval a jv); cbn [fst snd]; split; field.
 Qed.
 
 (* ... hence the sums can be taken over the data in any order as soon as no pair that can fall in the lag is orthogonal to the
@@ -400,9 +401,9 @@ Proof.
   { unfold pair_side. cbv zeta. destruct (qltb 0 (g_d2 (geo_pair d a b)) && negb (qltb (g_dproj (geo_pair d a b)) 0)); discriminate. }
   unfold padd, wterm, prod1.
   destruct (coincident a b).
-  - destruct (zval a iv); destruct (zval b jv); destruct (zval b iv); destruct (zval a jv); cbn [fst snd]; split; ring.
+  - destruct (zval a iv); destruct (zval b jv); destruct (zval b iv); destruct (zval a jv); cbn [fst snd]; split; field.
   - destruct (pair_side a b), o; try congruence; cbn [orient_eqb flip];
-      destruct (zval a iv); destruct (zval b jv); destruct (zval b iv); destruct (zval a jv); cbn [fst snd]; split; ring.
+      destruct (zval a iv); destruct (zval b jv); destruct (zval b iv); destruct (zval a jv); cbn [fst snd]; split; field.
 Qed.
 Lemma cov_sums_mirror iv jv k o L :
   o <> Ozero ->
